@@ -25,6 +25,9 @@ elif prop.endswith("g"):        # seventh round: seeds numbered from 18
 elif prop.endswith("h"):        # eighth round: seeds numbered from 21
     prop = prop[:-1]
     dst_k = str(int(k) + 20)
+elif prop.endswith("i"):        # ninth round: seeds numbered from 24
+    prop = prop[:-1]
+    dst_k = str(int(k) + 23)
 else:
     dst_k = k
 summary = sys.argv[5] if len(sys.argv) > 5 else ""
